@@ -658,7 +658,23 @@ pub fn run_c15(ctx: &Ctx) -> i32 {
         ],
     )];
     // (a) lock-step
+    let mut res = alphabet(
+        Universe::new("U_res{a,a/b,d}", &["/a", "/a/b", "/d"]),
+        &[b"x"],
+        1,
+        thorough,
+    );
+    res.residue = true;
     let mut spaces = vec![
+        // what a refused call leaves behind (one refused call per history is a state of its own)
+        port_pair(Cfg::Mem, Order::Asc, res.clone(), vec![], " after a refused call"),
+        port_pair(
+            ov.clone(),
+            Order::Asc,
+            res.clone(),
+            vec![(1, vec![("/a".to_string(), Node::Dir), ("/a/b".to_string(), Node::File(b"l".to_vec()))])],
+            " after a refused call",
+        ),
         port_pair(
             Cfg::Mem,
             Order::Asc,
